@@ -46,6 +46,10 @@ func main() {
 		cmdFuzz(fs, os.Args[2:])
 	case "codec":
 		cmdCodec(fs, os.Args[2:])
+	case "kvs":
+		cmdKvs(fs, os.Args[2:])
+	case "simple":
+		cmdSimple(fs, os.Args[2:])
 	default:
 		fmt.Fprintf(os.Stderr, "harness: unknown subcommand %q\n", sub)
 		os.Exit(2)
